@@ -32,12 +32,13 @@ from .model import FuncInfo, Module, norm_text
 
 class Vec:
     """Tuple / list / small vector with known components."""
-    __slots__ = ("items", "kind", "_key")
+    __slots__ = ("items", "kind", "_key", "arr")
 
-    def __init__(self, items: Sequence[Any], kind: str = "tuple"):
+    def __init__(self, items: Sequence[Any], kind: str = "tuple", arr: bool = False):
         self.items = tuple(items)
         self.kind = kind        # tuple | list | point
         self._key = None
+        self.arr = arr          # a numpy array known element by element (a preallocated array filled by a loop): arithmetic is element-wise
 
     @property
     def key(self):
@@ -433,6 +434,23 @@ class Evaluator:
 
     def arith(self, op: str, a, b):
         def f(x, y):
+            if op in ("+", "-", "*", "/") and ((isinstance(x, Vec) and x.arr and isinstance(y, Rat) and self._scalar_valued(y))
+                                                or (isinstance(y, Vec) and y.arr and isinstance(x, Rat) and self._scalar_valued(x))):
+                from .seqdom import Gen
+                arrv, left = (x, True) if isinstance(x, Vec) else (y, False)
+                sc = y if left else x
+
+                def one(v_):
+                    return f(v_, sc) if left else f(sc, v_)
+                items_ = []
+                for it_ in arrv.items:
+                    if isinstance(it_, Gen):
+                        if any(str(s_).startswith("@i") for s_ in sc.symbols()):
+                            raise Unsupported("array arithmetic with a loop position")
+                        items_.append(Gen(it_.depth, it_.lo, it_.hi, it_.step, [(g_, one(v_), sp_) for g_, v_, sp_ in it_.parts], ranged=it_.ranged))
+                    else:
+                        items_.append(one(it_))
+                return Vec(items_, "list", arr=True)
             if op == "+" and isinstance(x, Vec) and isinstance(y, Vec) and x.kind == "list" and y.kind == "list":
                 return Vec(list(x.items) + list(y.items), "list")          # list concatenation
             if op == "*" and ((isinstance(x, Vec) and x.kind == "list" and isinstance(y, Rat)) or (isinstance(y, Vec) and y.kind == "list" and isinstance(x, Rat))):
@@ -477,12 +495,33 @@ class Evaluator:
             raise Unsupported(f"operator {op}")
         return lift(f, a, b)
 
+    def _scalar_valued(self, r: Rat) -> bool:
+        """Not an array: no array atom, except calls of package functions annotated to return a float / int (a call atom is
+        flagged as an array whenever one of its arguments is)."""
+        for a in r.atoms():
+            if not a.array:
+                continue
+            if a.kind == "fn" and a.name.startswith("call:"):
+                try:
+                    fi = self.lk.repo.func(a.name[5:])
+                except Exception:
+                    return False
+                ret = fi.node.returns
+                if ret is not None and ast.unparse(ret) in ("float", "int", "np.float64", "bool"):
+                    continue
+            return False
+        return True
+
     def map1(self, fn: Callable[[Rat], Rat], v):
         def f(x):
             if isinstance(x, Vec):
-                return Vec([f(i) for i in x.items], x.kind)
+                return Vec([f(i) for i in x.items], x.kind, arr=x.arr)
             if isinstance(x, PW):
                 return lift(f, x)
+            from .seqdom import Gen
+            if isinstance(x, Gen):
+                # an element-wise function of an array known block by block: applied to the value of every block
+                return Gen(x.depth, x.lo, x.hi, x.step, [(g_, f(v_), sp_) for g_, v_, sp_ in x.parts], ranged=x.ranged)
             return fn(self.to_rat(x))
         return lift(f, v)
 
